@@ -11,25 +11,29 @@ def _case_key(case, kind):
 
 
 CFG = {
-    "ready": False,
-    "level_text": "Proof for two of the three parts. (1) Int-width independence: the translator lists, from the typed syntax tree of the files a 32-bit target compiles, every constant expression whose final type is int/uint/uintptr (9 400+ expressions, width-dependent ones such as math.MaxInt evaluated for GOARCH=386) and Coq re-checks on every run that each fits 32 bits (complete finite check; an out-of-range constant fails the obligation and is named by position). (2) SIMD algorithms: Gallina models with explicit 16-bit lanes (wrapping PADDW/PSUBW, PMULHW with 20091 and 35468-65536, PSRAW, PACKUSWB) of the IDCT, inverse WHT and forward WHT are proved equal to the portable kernels on the widest coefficient boxes for which no lane feeding a non-linear operation wraps (|c|<=2212, 2047, 2047; maximality proved by witnesses), and the full statement over all int16 blocks - which a valid bitstream can deliver - is refuted by concrete blocks that replay on the real kernels (known findings). (3) Instrumentation: portable vs dispatched vs SSE2 vs AVX2 kernels on random/extreme/boundary inputs, Encode/Decode digests of the normal build vs an overlay build without any architecture-specific file, and `go build ./...` for a GOOS/GOARCH matrix.",
-    "level_note": "Not proof: the assembly text is not modelled instruction by instruction (it is tied to the lane-16 models by running both on the same inputs); 'compiles for every GOOS/GOARCH' is checked by running the compiler on a matrix, the int-width theorem covers only constant representability; arm64 NEON code cannot be executed here. Trusted: Coq kernel, extraction, OCaml glue, Go harness, translator (go/types).",
-    "technique": "Rocq proof of lane-16 SIMD algorithm models against portable kernels + complete int-width constant check over translator output; differential execution of assembly/portable kernels and of two builds; cross-compilation matrix",
+    "ready": True,
+    "level_text": "Proof for two of the three parts. (1) Int-width independence: the translator lists, from the typed syntax tree of the files a 32-bit target compiles (GOARCH 386/arm/mipsle/wasm, windows/386), every constant expression whose final type is int/uint/uintptr (9 400+ expressions; width-dependent ones such as math.MaxInt or ^uint(0)>>1 are evaluated against math, math/bits, strconv type-checked for GOARCH=386) and Coq re-checks on every run that each fits 32 bits (complete finite check; an out-of-range constant fails the obligation and is named by file:line:col). (2) SIMD algorithms: Gallina models with explicit 16-/32-bit lanes (wrapping PADDW/PSUBW, PMULHW with 20091 and 35468-65536, PSRAW, PACKUSWB/PACKSSDW saturation, PMADDWD, PSUBUSW, PMULUDQ) of the IDCT, inverse WHT, forward WHT, forward DCT, TrueMotion predictor, simple loop filter, green transforms, SSE, Hadamard distortion, YUV->RGB and AC quantisation are proved equal to the portable kernels - on all byte inputs where the inputs are samples, and on the widest coefficient boxes for which no lane feeding a non-linear operation wraps where the inputs are coefficients (IDCT |c|<=2212, WHTs |c|<=2047; maximality proved by witnesses; the forward WHT is proved to stay in range on every encoder-reachable input via |FDCT coefficient| <= 2040). The full statement over all int16 blocks - which a valid bitstream can deliver to the decoder's IDCT and inverse WHT - is refuted by concrete blocks that replay on the real kernels and, through hand-assembled valid VP8 files, on webp.Decode (known findings). (3) Instrumentation: portable vs dispatched vs SSE2 vs AVX2 kernels on random/extreme/boundary/near-tie inputs, Encode/Decode digests of the normal build vs an overlay build without any architecture-specific file, and `go build ./...` for a GOOS/GOARCH matrix.",
+    "level_note": "Not proof: the assembly text is not modelled instruction by instruction (register allocation, shuffles and transposes are abstracted to the data flow; it is tied to the lane models by running both on the same inputs every run); 'compiles for every GOOS/GOARCH' is checked by running the compiler on a matrix - the int-width theorem covers constant representability only; arm64 NEON code cannot be executed on the checking machine. Trusted: Coq kernel, extraction, OCaml glue, Go harness, translator (go/types).",
+    "technique": "Rocq proof of lane-level SIMD algorithm models against portable kernel models + complete int-width constant check over translator output; extraction-based correspondence with assembly and portable Go kernels; differential execution of two builds; cross-compilation matrix",
     "notes": [
-        "proof: C13_int_constants_fit_32bit / C13_uint_constants_fit_32bit / C13_no_*_constant_out_of_range (complete finite check over Gen/IntWidth.v, regenerated each run)",
-        "proof: C13_lane16_idct_eq (box |c|<=2212) and C13_lane16_idct_eq_fits (semantic no-wrap condition), C13_lane16_wht_eq, C13_lane16_fwht_eq (|c|<=2047)",
-        "refuted (findings): C13_lane16_idct_differs_refuted, C13_idct_box_maximal, C13_lane16_wht_differs_refuted, C13_lane16_fwht_differs_refuted - witnesses replayed on the real kernels each run",
-        "instrumentation only: kernel differential (portable / dispatched / sse2 / avx2), pipeline digests normal vs overlay build, build matrix, go vet for linux/386",
+        "proof (int width): C13_int_constants_fit_32bit, C13_uint_constants_fit_32bit, C13_no_int_constant_out_of_range, C13_no_uint_constant_out_of_range, C13_int_constant_list_is_complete - complete finite check over Gen/IntWidth.v, regenerated each run",
+        "proof (coefficient kernels, range-conditional): C13_lane16_idct_eq_fits (semantic no-wrap condition), C13_lane16_idct_eq (|c|<=2212), C13_lane16_wht_eq, C13_lane16_fwht_eq (|c|<=2047), C13_lane16_fwht_eq_on_encoder_input (all encoder-reachable inputs), C13_lane_quant_eq / C13_lane_quant_eq_encoder",
+        "proof (sample kernels, all byte inputs): C13_lane32_fdct_eq, C13_lane16_tm_eq, C13_lane16_simple_filter_eq (thresh 0..32767), C13_lane16_add_green_eq, C13_lane16_sub_green_eq, C13_lane16_sse_eq (<=1024 samples), C13_lane16_tdisto_eq (weights from the source), C13_lane32_yuv_eq",
+        "refuted (findings): C13_lane16_idct_differs_refuted, C13_idct_box_maximal, C13_lane16_wht_differs_refuted, C13_lane16_fwht_differs_refuted (the last one outside the encoder-reachable range) - witnesses replayed on the real kernels each run; hand-assembled valid VP8 files make webp.Decode differ between the amd64 and the portable build",
+        "tie to source: C13_idct_constants_match, C13_yuv_constants_match (Gen/Consts.v), kWeightY (Gen/Tables.v)",
+        "instrumentation only: kernel differential (portable / dispatched / sse2 / avx2, AVX2 switched off via hook), pipeline digests normal vs overlay build, build matrix (quick 5 targets, thorough 22), go vet for linux/386",
     ],
     "partial": [
-        "The assembly routines themselves are not verified: the lane-16 models describe the algorithms; model vs assembly is sampled correspondence.",
-        "FDCT, TDisto, SSE16x16, DC/VE/HE predictors, upsampler, quantiser and AVX2-vs-SSE2 equivalence are covered by differential execution only (no theorem).",
-        "Reachability of out-of-range coefficients by the *encoder's own* ITransform/FTransformWHT/QuantizeCoeffs inputs is argued (|FDCT output| <= 2040) but not proved; differences there outside the reachable range are counted, not reported.",
-        "Compilation for every GOOS/GOARCH is checked by running `go build` on a matrix (quick: 5 targets, thorough: 22), not proved.",
+        "The assembly routines themselves are not verified: the lane models describe the algorithms read from the .s files; model vs assembly is sampled correspondence (every run, dispatched implementation = AVX2 where present; the SSE2 routines are compared Go-side).",
+        "DC/VE/HE predictors, SSE16x16 as a whole, TDisto16x16, the nz-count scan of QuantizeCoeffs, DequantCoeffs, the chroma diamond filter (identical Go code in both builds) and AVX2-vs-SSE2 equivalence are covered by differential execution only (no theorem).",
+        "Decoder: every int16 block is reachable, so the IDCT / inverse WHT equivalences are necessarily conditional; the unconditional statement is refuted (known findings lane16-wrap:idct, lane16-wrap:wht, pipeline-diff:stream:lane16-wrap).",
+        "Encoder: reachability is proved for the forward WHT only; that ITransform / TransformWHT / QuantizeCoeffs inputs produced by the encoder stay inside the proven ranges is argued (|FDCT coefficient| <= 2040, dequantisation error <= q/2) but not proved; kernel differences outside those ranges are counted, not reported.",
+        "Compilation for every GOOS/GOARCH is checked by running `go build` on a matrix, not proved; the int-width theorem rules out only constant-overflow errors.",
     ],
-    "trusted_base": ["modelled, not verified: internal/dsp/transforms_amd64.s (iTransformOneSSE2, transformWHTSSE2, fTransformWHTSSE2), predict_amd64.s (tm16/tm8uv), filter_amd64.s, lossless_amd64.s, ssim_amd64.s (sse4x4) as lane-16 algorithms; transforms.go, predict_lossy.go, filter.go, lossless_dsp.go, ssim.go as portable semantics",
-                     "go/types with 64-bit sizes (values of constant expressions) and, for width-dependent constants, math / math/bits / strconv type-checked for GOARCH=386"],
-    "assumptions": ["PMULHW/PADDW/PSUBW/PSRAW/PACKUSWB/PSUBUSW/PMADDWD semantics as in the Intel SDM", "the check runs on an amd64 machine (assembly variants are executed natively)"],
+    "trusted_base": ["modelled, not verified: internal/dsp/transforms_amd64.s + transforms_avx2_amd64.s (iTransformOne, transformWHT, fTransformWHT, fTransform), predict_amd64.s (tm16/tm8uv), filter_amd64.s + filter_avx2_amd64.s, lossless_amd64.s, ssim_amd64.s (sse4x4, tDisto4x4), upsample_amd64.s, internal/lossy/encode_quant_amd64.s as lane algorithms; transforms.go, predict_lossy.go, filter.go, lossless_dsp.go, ssim.go, yuv.go, encode_quant.go as portable semantics (clip tables modelled as clamps, uint32 masks as div/mod)",
+                     "go/types with 64-bit sizes (values of constant expressions) and, for width-dependent constants, math / math/bits / strconv type-checked for GOARCH=386",
+                     "go build -overlay (portable build), the Go cross-compilers"],
+    "assumptions": ["PMULHW/PADDW/PSUBW/PSRAW/PACKUSWB/PACKSSDW/PSUBUSW/PMADDWD/PMULUDQ semantics as in the Intel SDM", "the check runs on an amd64 machine (assembly variants are executed natively); Go int is at least 32 bits"],
     "case_key": _case_key,
     "harness_timeout": {"quick": 900, "thorough": 7200},
 }
